@@ -21,7 +21,7 @@ MANIFEST = {
     'note': 'Reference semantics are the builtins\' (queue: maxsize<=0 is unbounded as in queue.Queue); argument domains tiny on purpose; cluster part submits through healthy nodes and waits for each callback.',
 }
 LEVEL = 'exploration'
-RULE = ('case = (battery kind, maxsize 0..3, op list <=25 with args from ints 0..5/short strings/small tuples, mode direct|cluster). '
+RULE = ('case = (battery kind, maxsize in {0,1,2,3,8}, op list <=25 (<=40 for queues) with args from ints 0..5/short strings/small tuples, mode direct|cluster). '
         'non-trivial = the sequence hit >=1 miss/empty/bound situation (documented error, default returned, put refused) AND used >=1 default argument; distinct = distinct case digests')
 ASSUMPTIONS = ['documented errors = ValueError/IndexError/KeyError as in the docstrings', 'queue "full" follows queue.Queue: never full when maxsize<=0']
 
@@ -49,9 +49,13 @@ def ops_for(kind):
         return st.one_of(T(J('reset'), st.lists(V, max_size=4)), T(J('add'), W), T(J('add'), W), T(J('remove'), W), T(J('discard'), W), T(J('pop')), T(J('pop')), T(J('clear')),
                          T(J('update'), st.lists(W, max_size=6)), T(J('__len__')), T(J('__contains__'), W))
     if kind in ('queue', 'pqueue'):
-        item = V if kind == 'queue' else st.one_of(V, st.tuples(V, V).map(list))
-        item = V if kind == 'queue' else V
-        return st.one_of(T(J('put'), item), T(J('put'), item), T(J('get')), T(J('get'), V), T(J('qsize')), T(J('empty')), T(J('full')), T(J('__len__')))
+        item = st.integers(0, 9)
+        if kind == 'pqueue':
+            # runs of puts followed by runs of gets (a heap must hand the items back in order)
+            return st.one_of(T(J('put'), item), T(J('put'), item), T(J('put'), item), T(J('get')), T(J('get')), T(J('get'), V), T(J('qsize')), T(J('empty')), T(J('full')), T(J('__len__')),
+                             T(J('putmany'), st.lists(item, min_size=3, max_size=12)), T(J('drain'), st.integers(1, 12)),
+                             T(J('sortrun'), st.lists(item, min_size=4, max_size=12)), T(J('sortrun'), st.lists(item, min_size=4, max_size=12)))
+        return st.one_of(T(J('put'), item), T(J('put'), item), T(J('put'), item), T(J('get')), T(J('get')), T(J('get'), V), T(J('qsize')), T(J('empty')), T(J('full')), T(J('__len__')))
     raise ValueError(kind)
 
 
@@ -61,9 +65,9 @@ KINDS = ['counter', 'list', 'dict', 'set', 'queue', 'pqueue']
 def strategy(tier, mode=None):
     def mk(kind):
         return st.fixed_dictionaries({
-            'kind': st.just(kind), 'maxsize': st.integers(0, 3), 'rng': st.integers(0, 99),
+            'kind': st.just(kind), 'maxsize': st.sampled_from([0, 0, 0, 1, 2, 3, 8]), 'rng': st.integers(0, 99),
             'mode': st.just(mode) if mode else st.sampled_from(['direct', 'direct', 'direct', 'cluster']),
-            'ops': st.lists(ops_for(kind).map(list), min_size=1, max_size=25),
+            'ops': st.lists(ops_for(kind).map(list), min_size=1, max_size=40 if kind in ('queue', 'pqueue') else 25),
         })
     return st.sampled_from(KINDS).flatmap(mk)
 
@@ -279,8 +283,24 @@ def compare_call(kind, name, args, mres, mexc, res, exc, model_before):
     return None
 
 
+def expand(ops):
+    out = []
+    for op in ops:
+        if op[0] == 'putmany':
+            out.extend(['put', v] for v in op[1])
+        elif op[0] == 'drain':
+            out.extend(['get'] for _ in range(op[1]))
+        elif op[0] == 'sortrun':
+            out.extend(['put', v] for v in op[1])
+            out.extend(['get'] for _ in op[1])
+        else:
+            out.append(op)
+    return out
+
+
 def run_direct(case):
     kind, maxsize = case['kind'], case['maxsize']
+    case = dict(case, ops=expand(case['ops']))
     b = make_battery(kind, maxsize)
     m = model_new(kind, maxsize)
     flags = set()
@@ -342,6 +362,7 @@ def settle(sim, cond, rounds=80):
 
 def run_cluster(case):
     kind, maxsize = case['kind'], case['maxsize']
+    case = dict(case, ops=expand(case['ops'])[:40])
     cfg = {'n': 3, 'rng': case['rng'], 'compact_chunk': [7, 50, 65536][case['rng'] % 3], 'compact_min_entries': 100000, 'target': [PROP]}
     sim = BSim(cfg, kind, maxsize)
     m = model_new(kind, maxsize)
